@@ -413,6 +413,49 @@ def gen_raw(rng, maxlen: int) -> bytes:
     return bytes(rng.choice(b'ab\r\n') for _ in range(n))
 
 
+def adler_siblings(d: bytes, rng, k: int = 2):
+    """Different byte strings of the same length with the same zlib.adler32
+    (and hence the same 32-bit content hash / object id in any store that keys
+    content by it): +1,-2,+1 (or -1,+2,-1) on three consecutive bytes keeps
+    both Adler sums."""
+    import zlib
+    cands = []
+    for i in range(len(d) - 2):
+        if d[i] < 255 and d[i + 1] >= 2 and d[i + 2] < 255:
+            cands.append((i, (1, -2, 1)))
+        if d[i] >= 1 and d[i + 1] <= 253 and d[i + 2] >= 1:
+            cands.append((i, (-1, 2, -1)))
+    out = []
+    for i, delta in rng.sample(cands, min(k, len(cands))):
+        s = bytearray(d)
+        for j, x in enumerate(delta):
+            s[i + j] += x
+        s = bytes(s)
+        assert s != d and zlib.adler32(s) == zlib.adler32(d)
+        out.append(s)
+    return out
+
+
+def near_siblings(d: bytes, rng):
+    """(kind, literal) to be stored next to d: checksum-colliding variants, the
+    same bytes once more, d with one byte changed, d with two bytes swapped
+    (same byte sum), d plus / minus its last byte"""
+    out = [('adler_collision', s) for s in adler_siblings(d, rng)]
+    out.append(('same_bytes', d))
+    if d:
+        k = rng.randrange(len(d))
+        out.append(('one_byte_changed', d[:k] + bytes([(d[k] + rng.choice([1, 32, 128])) % 256]) + d[k + 1:]))
+        if len(d) > 1:
+            a, b = sorted(rng.sample(range(len(d)), 2))
+            if d[a] != d[b]:
+                t = bytearray(d)
+                t[a], t[b] = t[b], t[a]
+                out.append(('two_bytes_swapped', bytes(t)))
+            out.append(('last_byte_dropped', d[:-1]))
+        out.append(('last_byte_doubled', d + d[-1:]))
+    return [(kind, s) for kind, s in out if s]
+
+
 def byte_sweep(bases, values=range(256)):
     """every byte value substituted / inserted at every position of a few
     base messages"""
@@ -831,7 +874,8 @@ def check_items(ctx, d: bytes, items, partials, rep, where: str, backend: str,
         fail('body_verbatim', 'no BODY[] literal in the response', 'missing')
         return None
     eff = d
-    expect_loaded = None if expect is None else expect[where]
+    expect_loaded = None if expect is None else expect[
+        {'sibling': 'append', 'sibling_copy': 'copy', 'original_again': 'append'}.get(where, where)]
     if full != d:
         if expect_loaded is not None and expect_loaded != d:
             # stdlib mailbox does not give d back: hypothesis [ser d = d] is false here
@@ -840,9 +884,12 @@ def check_items(ctx, d: bytes, items, partials, rep, where: str, backend: str,
                  f'literal (stdlib mailbox round trip gives {len(expect_loaded)})', kind)
             eff = full
         else:
-            clause = 'body_verbatim' if where == 'append' else 'copy_verbatim'
-            fail(clause, f'BODY[] returns {len(full)} octets != literal ({len(d)} octets)',
-                 'content_not_verbatim')
+            clause = 'copy_verbatim' if where in ('copy', 'move', 'sibling_copy') \
+                else 'body_verbatim'
+            k = next((i for i, (x, y) in enumerate(zip(full, d)) if x != y), min(len(full), len(d)))
+            fail(clause, f'BODY[] returns {len(full)} octets that differ from the {len(d)}-octet '
+                 f'literal at offset {k}: {full[max(k - 8, 0):k + 8]!r} vs '
+                 f'{d[max(k - 8, 0):k + 8]!r}', 'content_not_verbatim')
             eff = full
     r822 = lit(items.get(b'RFC822'))
     if r822 != full:
